@@ -147,8 +147,9 @@ Record state := mkSt {
   gone : bool;           (* the client closed its end *)
   io : iopc;
   ws : list wpc;
-  taint : bool           (* ghost: the head of an expecting request was received while requests <> []
-                            (so a worker may execute send_continue: the F18 class) *)
+  taint : bool           (* ghost: the head of an expecting request was received while requests <> [] or
+                            while sent_continue was still set (so a worker may execute send_continue:
+                            the F18 class) *)
 }.
 
 Definition init (nw : nat) : state :=
@@ -303,7 +304,7 @@ Definition step_io (c : cfg) (s : state) (ch : choice) : option (state * list la
   | IoRcvLoop (IHead :: its) ww, CIo =>
       (* expect_continue and headers_finished and not self.requests and not self.sent_continue *)
       if Nat.eqb (nreq s) 0 then
-        if sentc s then ret (goio (set_pend100 s true) (IoRcvLoop its ww)) [LR AReq]
+        if sentc s then ret (goio (set_taint (set_pend100 s true) true) (IoRcvLoop its ww)) [LR AReq]
         else ret (goio s (IoScA its ww)) [LR AReq]
       else ret (goio (set_taint (set_pend100 s true) true) (IoRcvLoop its ww)) [LR AReq]
   | IoRcvLoop (IBody :: its) ww, CIo =>
